@@ -293,6 +293,9 @@ def gen_cut_string(R, tier, min_frags=1, with_levels=0, classes=None, weights=Fa
     if m.arom_rings and not shared_atoms and R.chance(0.2):
         mr = molgen.kekulized(R, m)
         feats.add('kekule_rendering')
+    if m.quin_rings and not shared_atoms and mr is m and R.chance(0.75):
+        mr = molgen.lowered(m)
+        feats.add('quinoid_ring_written_lower_case')
     if shared_atoms:
         s, info = molgen.build_shared(R, m, owner, share=R.choice([0.4, 0.8]), style=molgen.style_draw(R), feats=feats)
         if s is not None and info['nshared']:
@@ -393,8 +396,28 @@ def gen_shared_string(R, tier):
     if s is None:
         return None
     feats.add('shared_atoms:%d' % min(info['nshared'], 3))
-    return dict(input=s, last_all_atom=True, legacy=True, kind='shared', dedicated=True, model=m.to_json(),
+    legacy = True
+    if label_insensitive_ok(info['frag_block']) and R.chance(0.5):
+        s2 = relabel(R, s)
+        if s2 != s:
+            s, legacy = s2, False
+            feats.add('label_insensitive_relabelled')
+    return dict(input=s, last_all_atom=True, legacy=legacy, kind='shared', dedicated=True, model=m.to_json(),
                 nfr=info['nfr'], nlevels=1, two_level=s, features=sorted(feats))
+
+
+def label_insensitive_ok(fb):
+    """at most one descriptor pair of each kind in the fragment block: the label-insensitive
+    convention (only the symbol kind counts) then pairs the descriptors the same way"""
+    return fb.count('[!') <= 2 and fb.count('[$') <= 2 and fb.count('[>') <= 1 and fb.count('[<') <= 1
+
+
+def relabel(R, s):
+    """every descriptor label of the fragment blocks rewritten at random (for legacy=False)"""
+    import re
+    head, tail = s.split('}.{', 1)
+    return head + '}.{' + re.sub(r'\[([!$<>])(\w*)\]',
+                                 lambda mo: '[%s%s]' % (mo.group(1), R.choice(['', 'p', 'q7', 'Zz', mo.group(2)])), tail)
 
 
 def gen_resolvable(R, tier, kinds=('cut', 'levels', 'fragset')):
